@@ -105,6 +105,31 @@ func verifObserve(tag string, s string) { veriffmt.Println("VERIF-OBSERVE " + ta
 func verifNative() bool                 { return true }
 func verifConcretize(v int) int         { return v }
 func verifIsSym(v int) bool             { return false }
+
+var verifVFSDir string
+
+// natively the virtual files are real files under a fresh temporary directory
+func verifVFSRoot() string {
+	if verifVFSDir == "" {
+		d, err := verifos.MkdirTemp("", "verifvfs")
+		if err != nil {
+			panic(err)
+		}
+		verifVFSDir = d
+	}
+	return verifVFSDir
+}
+func verifVFSPut(name string, content []byte) {
+	i := len(name) - 1
+	for i >= 0 && name[i] != '/' {
+		i--
+	}
+	verifos.MkdirAll(name[:i], 0o755)
+	if err := verifos.WriteFile(name, content, 0o644); err != nil {
+		panic(err)
+	}
+}
+func verifVFSDel(name string) { verifos.Remove(name) }
 `
 
 type replayCase struct {
@@ -265,7 +290,7 @@ func (r *replayer) overlayFor(entryRel string, overrides [][2]string) (string, e
 	for _, f := range fs {
 		fmt.Fprintf(&tb, "\t%q: %s,\n", f, f)
 	}
-	tb.WriteString("}\n\nfunc TestVerifReplay(t *testing.T) {\n\tdebug.SetMaxStack(64 << 20)\n\tr := verifLoadReplay()\n")
+	tb.WriteString("}\n\nfunc TestVerifReplay(t *testing.T) {\n\tdebug.SetMaxStack(64 << 20)\n\tr := verifLoadReplay()\n\tdefer func() {\n\t\tif verifVFSDir != \"\" {\n\t\t\tos.RemoveAll(verifVFSDir)\n\t\t}\n\t}()\n")
 	tb.WriteString("\tif s := os.Getenv(\"VERIF_SETUP\"); s != \"\" {\n\t\tverifEntries[s]()\n\t}\n")
 	tb.WriteString("\tf := verifEntries[r.Entry]\n\tif f == nil {\n\t\tt.Fatalf(\"no entry %s\", r.Entry)\n\t}\n\tf()\n\tfmt.Println(\"VERIF-DONE\")\n}\n")
 	if err := write(filepath.Join(r.p.repo, entryRel, "zz_verif_replay_test.go"), tb.Bytes()); err != nil {
